@@ -18,7 +18,7 @@ ASSUMPTIONS = [
 ]
 REQUIRED = {
     'quick': ['op:with-closure', 'op:no-closure', 'op:bisect', 'op:refine-both', 'op:uniform', 'op:uniform-space',
-              'op:dorfler', 'op:grading', 'random:glued', 'random:open', 'source:repo-test-suite'],
+              'op:dorfler', 'op:grading', 'random:glued', 'random:open', 'source:repo-test-suite', 'deep:seam-last-top', 'deep:seam-first-top', 'deep:interior-top'],
 }
 REQUIRED['thorough'] = REQUIRED['quick']
 TIMEOUT = {'quick': 900, 'thorough': 7200}
